@@ -17,6 +17,14 @@ let table s =
                      | [nm; cp] -> (cps nm, n_of_int (int_of_string cp))
                      | _ -> failwith "bad table entry") (String.split_on_char ';' s)
 let flag s = (s = "1")
+(* unicode table: cp:flags:dec;...  flags bit0 = isspace, bit1 = isdigit; dec = -1 or the decimal value *)
+let utable s =
+  if s = "" then [] else
+  List.map (fun e -> match String.split_on_char ':' e with
+                     | [cp; fl; dec] ->
+                       let f = int_of_string fl and d = int_of_string dec in
+                       (n_of_int (int_of_string cp), ((f land 1 <> 0, f land 2 <> 0), (if d < 0 then None else Some (n_of_int d))))
+                     | _ -> failwith "bad unicode table entry") (String.split_on_char ';' s)
 
 let () =
   try
@@ -30,6 +38,11 @@ let () =
         | ["escdec"; s] -> m_escdec (cps s)
         | ["bsr"; s] -> m_bsr (cps s)
         | ["pyval"; tbl; raw; isb; s] -> m_pyval (table tbl) (flag raw) (flag isb) (cps s)
+        | ["ident"; tbl; rd; s] -> m_ident (utable tbl) (flag rd) (cps s)
+        | ["pyint"; tbl; b0; s] -> m_pyint (utable tbl) (flag b0) (cps s)
+        | ["pyfloat"; tbl; s] -> m_pyfloat (utable tbl) (cps s)
+        | ["pycomplex"; tbl; s] -> m_pycomplex (utable tbl) (cps s)
+        | ["isdigit"; tbl; s] -> m_isdigit (utable tbl) (cps s)
         | _ -> failwith ("bad line: " ^ line)
       in
       print_string (show out); print_char '\n'
